@@ -571,6 +571,7 @@ class History:
         self.trace = []
         self.after = "start"            # class of the step before the next judged call
         self.last_failed = None         # class of the most recent unjudged call that raised
+        self.failed_pack_seen = None    # "failed_pack" once an unjudged pack raised in this history
 
     # ---- bookkeeping
     def register(self, m, obj, kind, frozen=False):
@@ -694,7 +695,7 @@ class History:
         if st != "ok" or got != want:
             st2, got2 = observe(lambda: N.message.pack(name, **kw))
             if st2 == "ok" and got2 == want:
-                mech = "p2p.history.pack_wrong_once.after_%s" % (self.last_failed or self.after)   # state left behind by an earlier call
+                mech = "p2p.history.pack_wrong_once.after_%s" % (self.failed_pack_seen or self.last_failed or self.after)   # state left by an earlier call
             else:
                 st3, got3 = _pack(N, name, fields)
                 if st3 == "ok" and got3 == want:
@@ -856,9 +857,10 @@ class History:
         self.rec.ev("history.step:argument_list_edit")
         return self.check(msg, "after_list_edit")
 
-    def corrupt(self, v):
+    def corrupt(self, v, N=None):
         """a value of the same place that the field type cannot carry (biased to late positions of arrays)"""
-        rng, N = self.rng, self.N
+        rng, N = self.rng, N or self.N
+        other = self.other if N is self.N else self.N
         from pycoin.message.PeerAddress import PeerAddress
         from pycoin.message.InvItem import InvItem
         if isinstance(v, bool) or v is None:
@@ -872,7 +874,7 @@ class History:
                 return rng.choice([None, 5])
             i = max(rng.randrange(len(v)), rng.randrange(len(v)))
             w = list(v)
-            w[i] = self.corrupt(v[i])
+            w[i] = self.corrupt(v[i], N)
             if isinstance(v, tuple):
                 return tuple(w) if rng.random() < 0.8 else rng.choice([tuple(v[:1]), tuple(v) + (0,)])
             return w
@@ -891,7 +893,7 @@ class History:
             if r == 2:
                 return N.tx(v.version, list(v.txs_in[:-1]) + [N.tx.TxIn(b"\0" * 32, 0, b"", 1 << 32)], v.txs_out, v.lock_time)
             if r == 3:
-                return mk_tx(self.other, G.rand_tx(rng, small=True))                  # the other network's class
+                return mk_tx(other, G.rand_tx(rng, small=True))                       # the other network's class
             return None
         if isinstance(v, N.block):
             r = rng.randrange(4)
@@ -907,6 +909,21 @@ class History:
     def step_failed_pack(self):
         """a pack call with an invalid value (not judged), then a judged call: half of the time the corrected same message"""
         rng, N = self.rng, self.N
+        if rng.random() < 0.12:
+            # the failing call happens on the other network's packer (state shared by all networks would carry over)
+            name = rng.choice(HISTORY_NAMES)
+            kw = {k: to_lib(self.other, v) for k, v in GENERATORS[name](rng, 20 + rng.randrange(1000)).items()}
+            keys = list(kw)
+            if keys:
+                k = keys[max(rng.randrange(len(keys)), rng.randrange(len(keys)))]
+                kw[k] = self.corrupt(kw[k], self.other)
+            st, got = observe(lambda: self.other.message.pack(name, **kw))
+            self.rec.ev("history.step:pack_with_invalid_value_on_other_network")
+            self.after = "failed_pack_other_network" if st != "ok" else "invalid_pack_returned"
+            if st != "ok":
+                self.last_failed = self.failed_pack_seen = "failed_pack"
+            self.trace.append("bad_pack_other_net:%s" % name)
+            return self.step_repack() if rng.random() < 0.6 else self.step_new()
         if self.msgs and rng.random() < 0.4:
             name, fields, kw = rng.choice(self.msgs)
             kw = dict(kw)
@@ -930,7 +947,7 @@ class History:
         self.rec.ev("history.invalid_pack_%s" % ("raised" if st != "ok" else "returned"))
         self.after = "failed_pack" if st != "ok" else "invalid_pack_returned"
         if st != "ok":
-            self.last_failed = "failed_pack"
+            self.last_failed = self.failed_pack_seen = "failed_pack"
         self.trace.append("bad_pack:%s" % bad_name)
         if rng.random() < 0.5:
             if own:
@@ -1027,7 +1044,7 @@ def run_shard(spec, rec):
     if spec.get("histories", 0):
         rec.require("history", "history.pack", "history.parse", "history.read_only_call", "history.invalid_pack_raised",
                     "history.damaged_parse_raised", "history.step:parse_same_bytes_again", "history.step:adopt_parsed_objects",
-                    *["history.pack_after:" + a for a in ("failed_pack", "failed_parse", "set_nonce", "set_txs", "set_witness", "txin_script",
+                    *["history.pack_after:" + a for a in ("failed_pack", "failed_pack_other_network", "failed_parse", "set_nonce", "set_txs", "set_witness", "txin_script",
                                                           "txin_sequence", "txout_coin_value", "list_edit", "adopt_parsed", "valid_call")])
     for name in table:
         rec.require("pack:" + name, "parse:" + name)
